@@ -3,9 +3,9 @@ package props
 import (
 	"encoding/json"
 	"fmt"
-	"reflect"
 	"sort"
 	"strings"
+	"unsafe"
 
 	"github.com/hashicorp/go-argmapper"
 	"verif.local/harness/core"
@@ -30,7 +30,7 @@ func (C13) Info() core.Info {
 	return core.Info{
 		Rule: "planned and random worlds (all label features, converters in every form, generators, defaults, duplicate keys) to whose target 1-2 hopeless parameters are added: no supplied label and no output slot of any converter PERMIT-matches them. Oracle on the returned error: it is the unsatisfied-argument type; Args contains every hopeless parameter; every element of Args is a parameter of the target without an exactly matching supplied value and outside the EXPECT fixpoint; Inputs equals the supplied values as a multiset of labels (after last-wins de-duplication); Converters contains every supplied converter (by function identity); the message contains the rendering of each missing argument. All list comparisons are order-insensitive (S1 decides their order). Non-trivial: >=1 converter and >=1 supplied value; distinct = distinct (world shape, event-log hash)",
 		Assumptions: []string{"a converter given as a raw function is identified by its function pointer, one given as *Func by pointer identity"},
-		Probes:      []string{"c13_errors_checked", "c13_args_with_derivable_sibling", "c13_inputs_nonempty", "c13_converters_nonempty", "c13_duplicate_keys", "s1_nonidentity_perms"},
+		Probes:      []string{"c13_errors_checked", "c13_args_with_derivable_sibling", "c13_inputs_nonempty", "c13_converters_nonempty", "c13_duplicate_keys", "c13_same_signature_converters", "s1_nonidentity_perms"},
 		Real:        realComponents,
 		Simulated:   simComponents,
 	}
@@ -94,6 +94,18 @@ func (C13) Gen(r *simrt.RNG, tier string) core.Case {
 				_ = ai
 				break
 			}
+		}
+	}
+	// two distinct converters with one Go signature now and then
+	if r.Chance(1, 5) && len(w.Parties) > 1 {
+		pi := 1 + r.Intn(len(w.Parties)-1)
+		if !w.Parties[pi].Once {
+			w.Parties = append(w.Parties, w.Parties[pi])
+			w.Args = append(w.Args, world.ArgSpec{Kind: []string{world.ArgConv, world.ArgConvFunc}[r.Intn(2)], Party: len(w.Parties) - 1})
+			if w.Parties[pi].InForm == world.FormBuilt {
+				w.Args[len(w.Args)-1].Kind = world.ArgConvFunc
+			}
+			w.Ops[0].Args = append(w.Ops[0].Args, len(w.Args)-1)
 		}
 	}
 	// hopeless parameters: types nothing supplies or produces
@@ -279,11 +291,18 @@ func (C13) Run(c core.Case, ctx *core.Ctx) []core.Violation {
 			if len(view.Convs) > 0 {
 				ctx.St.Inc("c13_converters_nonempty")
 			}
+			for i, a := range view.Convs {
+				for _, b := range view.Convs[:i] {
+					if a != b && w.Parties[a].String() == w.Parties[b].String() && w.Parties[a].HasErr == w.Parties[b].HasErr {
+						ctx.St.Inc("c13_same_signature_converters")
+					}
+				}
+			}
 			for _, pi := range view.Convs {
-				want := reflect.ValueOf(rt.Func(pi).Func()).Pointer()
+				want := funcIdentity(rt.Func(pi).Func())
 				found := false
 				for _, cf := range ue.Converters {
-					if cf == rt.Func(pi) || reflect.ValueOf(cf.Func()).Pointer() == want && cf.Func() != nil && reflect.TypeOf(cf.Func()) == reflect.TypeOf(rt.Func(pi).Func()) {
+					if cf == rt.Func(pi) || (cf.Func() != nil && funcIdentity(cf.Func()) == want) {
 						found = true
 					}
 				}
@@ -312,4 +331,11 @@ func (C13) Run(c core.Case, ctx *core.Ctx) []core.Violation {
 		finish(ctx, rt, sim)
 	}
 	return sortViolations(out)
+}
+
+// funcIdentity is the address of the function value (closure object) behind an
+// interface holding a func: unique per reflect.MakeFunc call, unlike the code
+// pointer, which all MakeFunc functions share.
+func funcIdentity(fn interface{}) unsafe.Pointer {
+	return (*[2]unsafe.Pointer)(unsafe.Pointer(&fn))[1]
 }
